@@ -230,6 +230,17 @@ theorem pure_state_shortcut_is_uhlmann {ι : Type} [Fintype ι] [DecidableEq ι]
     C17B.uhlmann σ (C17B.ketBra ψ) = Matrix.trace (σ * C17B.ketBra ψ) :=
   ⟨C17B.uhlmann_pure_left ψ hψ σ hσ, C17B.uhlmann_pure_right ψ σ hσ⟩
 
+open scoped MatrixOrder ComplexOrder in
+/-- **The model's `fidelity` returns the Uhlmann fidelity on its pure branch** (every n): if the first argument represents a
+    pure state `|ψ⟩⟨ψ|` (`ψ` a unit vector) and the second a density matrix (positive semidefinite, trace 1), both arguments
+    pass `is_density_matrix`, the first passes `is_pure`, the value `Re tr(ρσ)` lies in `[0,1]` (so `clip` changes nothing)
+    and it equals `(tr √(√ρ σ √ρ))²`. -/
+theorem dm_fidelity_pure_branch_is_uhlmann {n : Nat} (m m' : Mat) (ψ : Hilbert.Bits n → ℂ) (M' : Hilbert.DMat n)
+    (hψ : dotProduct (star ψ) ψ = 1) (hm : Hilbert.Rep n m (C17B.ketBra ψ)) (hm' : Hilbert.Rep n m' M')
+    (hM' : M'.PosSemidef) (ht : Matrix.trace M' = 1) :
+    ∃ q : Rat, fidelity m m' = .ok (.val q) ∧ ((q : ℝ) : ℂ) = C17B.uhlmann (C17B.ketBra ψ) M' :=
+  C17B.fidelity_pure_rep ψ M' hψ hm hm' hM' ht
+
 /-- **The fidelity both backends report for two stabilizer states is their Uhlmann fidelity** (every n, valid tableaux of
     equal size): `(tr √(√ρ_a ρ_b √ρ_a))² = stabOverlap a b`, where `ρ = Hilbert.tabRho` is the complex matrix the exact
     `stabilizerDensity` represents. -/
@@ -284,5 +295,10 @@ example : isDensityMatrix (stabilizerDensity bellTab) = true ∧ isPure (stabili
     stabOverlap bellTab bellTab = 1 ∧ stabOverlap bellTab (Tab.ket0 2) = 1/2 := by decide +kernel
 example : bellTab.isSymplectic = true ∧ (Tab.ket0 2).isSymplectic = true ∧ bellTab.n = (Tab.ket0 2).n ∧
     ∀ k, k < (Tab.ket0 2).n → ((Tab.ket0 2).row (k + (Tab.ket0 2).n)).r = false := by decide
+
+/-- the hypotheses of `dm_fidelity_pure_branch_is_uhlmann` are met by the exact matrix of every valid tableau (first argument) -/
+example : ∃ ψ : Hilbert.Bits bellTab.n → ℂ, dotProduct (star ψ) ψ = 1 ∧
+    Hilbert.Rep bellTab.n (stabilizerDensity bellTab) (C17B.ketBra ψ) :=
+  C17B.stabilizerDensity_rep_ketBra bellTab ((Tab.isSymplectic_iff _).1 (by decide))
 
 end Graphiq.C17
